@@ -147,6 +147,18 @@ def generate():
     inner_tries = [t for t in tries if t < loop_end]
     out.append("Definition copy_try_exits : N := %d." % len(inner_tries))
     out.append("Definition copy_try_exits_destroying : N := %d." % sum(1 for t in inner_tries if destroyed_before(t)))
+    # ... and per arm of the sink match: the sink failed / the sink accepted nothing
+    def arm_of(pos):
+        b0 = rest.rfind("{", 0, pos)
+        head = rest[max(0, b0 - 40):b0]
+        return "err" if re.search(r"Err\(e\)\s*=>\s*$", head) else ("zero" if re.search(r"if\s+size == 0\s*$", head) else "other")
+    arms = {"err": [], "zero": [], "other": []}
+    for t in inner_tries:
+        arms[arm_of(t)].append(destroyed_before(t))
+    if arms["other"]:
+        raise gt.GenError("enc/mod.rs BrotliCompressCustomIoCustomDict: a `?` inside the loop in an arm the C09 model does not know")
+    out.append("Definition copy_sink_error_try_destroys : bool := %s." % _b(all(arms["err"])))
+    out.append("Definition copy_sink_zero_try_destroys : bool := %s." % _b(all(arms["zero"])))
     tail_ok = loop_end > max(returns or [0]) and "read_err?" in rest[loop_end:]
     out.append("Definition copy_tail_destroys : bool := %s." % _b(tail_ok))
 
